@@ -56,3 +56,115 @@ package curl
 //@   loop 1.1 invariant 1 <= i && i <= 729 && i%4 == 1 && t == idx(i) && bL == (*lfrom)[t] && bH == (*hfrom)[t]
 //@   loop 1.1 invariant forall(m, 0, i, (*lto)[m] == sbL((*lfrom)[idx(m)], (*hfrom)[idx(m)], (*lfrom)[idx(m+1)], (*hfrom)[idx(m+1)]))
 //@   loop 1.1 invariant forall(m, 0, i, (*hto)[m] == sbH((*lfrom)[idx(m)], (*hfrom)[idx(m)], (*lfrom)[idx(m+1)], (*hfrom)[idx(m+1)]))
+
+// transformAsmModel is the Go transliteration of TEXT ·transform in transform_amd64.s that govc
+// generates on every run (see /verif/govc/asm.go for the per-mnemonic semantics). Registers are the
+// variables of that function: R12 = i, R11 = t, (R9, R10) = b, SI = rounds left, DX/BX = from, AX/CX = to.
+// Every memory operand is an array access, so its index-bounds obligation is "the instruction stays
+// inside that buffer". The four buffers are assumed to be distinct allocations (true at the only call
+// site, Curl.transform).
+
+//@ func transform(lto *[729]uint, hto *[729]uint, lfrom *[729]uint, hfrom *[729]uint)
+//@   props C20
+//@   repr uint
+//@   intvar SI R11 R12
+//@   requires lto != nil && hto != nil && lfrom != nil && hfrom != nil
+//@   ensures  forall(i, 0, 729, (*lto)[i] == st(81, i, 0, old(*lfrom), old(*hfrom)) && (*hto)[i] == st(81, i, 1, old(*lfrom), old(*hfrom)))
+//@   modifies *lto
+//@   modifies *hto
+//@   modifies *lfrom
+//@   modifies *hfrom
+//@   panics   never
+//@   loop 1 invariant 1 <= mathint(SI) && mathint(SI) <= 81
+//@   loop 1 invariant implies((81-mathint(SI))%2 == 0, sameptr(DX, old(lfrom)) && sameptr(BX, old(hfrom)) && sameptr(AX, old(lto)) && sameptr(CX, old(hto)))
+//@   loop 1 invariant implies((81-mathint(SI))%2 == 1, sameptr(DX, old(lto)) && sameptr(BX, old(hto)) && sameptr(AX, old(lfrom)) && sameptr(CX, old(hfrom)))
+//@   loop 1 invariant forall(i, 0, 729, (*DX)[i] == st(81-mathint(SI), i, 0, old(*lfrom), old(*hfrom)) && (*BX)[i] == st(81-mathint(SI), i, 1, old(*lfrom), old(*hfrom)))
+//@   loop 1 assert forall(m, 0, 729, (*DX)[m] == sbL((*AX)[idx(m)], (*CX)[idx(m)], (*AX)[idx(m+1)], (*CX)[idx(m+1)]))
+//@   loop 1 assert forall(m, 0, 729, (*BX)[m] == sbH((*AX)[idx(m)], (*CX)[idx(m)], (*AX)[idx(m+1)], (*CX)[idx(m+1)]))
+//@   loop 1 exitassert forall(m, 0, 729, (*DX)[m] == sbL((*AX)[idx(m)], (*CX)[idx(m)], (*AX)[idx(m+1)], (*CX)[idx(m+1)]))
+//@   loop 1 exitassert forall(m, 0, 729, (*BX)[m] == sbH((*AX)[idx(m)], (*CX)[idx(m)], (*AX)[idx(m+1)], (*CX)[idx(m+1)]))
+//@   loop 1.1 invariant 1 <= mathint(R12) && mathint(R12) <= 725 && mathint(R12)%4 == 1 && mathint(R11) == idx(mathint(R12)) && R9 == (*DX)[mathint(R11)] && R10 == (*BX)[mathint(R11)]
+//@   loop 1.1 invariant forall(m, 0, mathint(R12), (*AX)[m] == sbL((*DX)[idx(m)], (*BX)[idx(m)], (*DX)[idx(m+1)], (*BX)[idx(m+1)]))
+//@   loop 1.1 invariant forall(m, 0, mathint(R12), (*CX)[m] == sbH((*DX)[idx(m)], (*BX)[idx(m)], (*DX)[idx(m+1)], (*BX)[idx(m+1)]))
+
+// ---- C06: the sponge, lane by lane. Lane j of the batch is bit j of every state word.
+
+//@ spec allones() uint = ^uint(0)
+//@ spec bitset(x uint, j uint) bool = (x>>j)&1 == 1
+
+//@ func bool2int(b bool) (r uint)
+//@   props C06
+//@   repr uint
+//@   ensures r == ite(b, allones(), uint(0))
+//@   panics  never
+
+//@ func NewCurlP81() (c *Curl)
+//@   props C06
+//@   repr uint
+//@   ensures c != nil && c.direction == SpongeAbsorbing
+//@   ensures forall(i, 0, 729, c.l[i] == allones() && c.h[i] == allones())
+//@   panics  never
+
+//@ func (c *Curl) Reset()
+//@   props C06
+//@   repr uint
+//@   ensures  c.direction == SpongeAbsorbing
+//@   ensures  forall(i, 0, 729, c.l[i] == allones() && c.h[i] == allones())
+//@   modifies c.l
+//@   modifies c.h
+//@   modifies c.direction
+//@   panics   never
+//@   loop 1 invariant 0 <= i && i <= 729 && forall(k, 0, i, c.l[k] == allones() && c.h[k] == allones())
+
+//@ func (c *Curl) Clone() (r *Curl)
+//@   props C06
+//@   repr uint
+//@   ensures r != nil && !sameptr(r, c)
+//@   ensures r.direction == c.direction
+//@   ensures forall(i, 0, 729, r.l[i] == c.l[i] && r.h[i] == c.h[i])
+//@   panics  never
+
+//@ func (c *Curl) CopyState(l []uint, h []uint)
+//@   props C06
+//@   repr uint
+//@   ensures  forall(k, 0, 729, implies(k < len(l), l[k] == c.l[k]))
+//@   ensures  forall(k, 0, 729, implies(k < len(h), h[k] == c.h[k]))
+//@   modifies l[0:min(len(l), 729)]
+//@   modifies h[0:min(len(h), 729)]
+//@   panics   never
+
+//@ func (c *Curl) in(src trinary.Trits, idx uint)
+//@   props C06
+//@   repr uint
+//@   requires len(src) >= 243
+//@   requires forall(i, 0, 243, bitset(c.l[i], idx&63) && bitset(c.h[i], idx&63))
+//@   ensures  forall(i, 0, 243, bitset(c.l[i], idx&63) == (src[i] <= 0) && bitset(c.h[i], idx&63) == (src[i] >= 0))
+//@   ensures  forall(i, 0, 243, c.l[i] | (uint(1)<<(idx&63)) == old(c.l[i]) | (uint(1)<<(idx&63)) && c.h[i] | (uint(1)<<(idx&63)) == old(c.h[i]) | (uint(1)<<(idx&63)))
+//@   ensures  forall(i, 243, 729, c.l[i] == old(c.l[i]) && c.h[i] == old(c.h[i]))
+//@   modifies c.l
+//@   modifies c.h
+//@   panics   never
+//@   loop 1 invariant 0 <= i && i <= 243 && len(src) == 243 && idx < 64 && m == ^(uint(1)<<idx)
+//@   loop 1 invariant forall(k, 0, i, bitset(c.l[k], idx) == (src[k] <= 0) && bitset(c.h[k], idx) == (src[k] >= 0))
+//@   loop 1 invariant forall(k, 0, i, c.l[k] | (uint(1)<<idx) == old(c.l[k]) | (uint(1)<<idx) && c.h[k] | (uint(1)<<idx) == old(c.h[k]) | (uint(1)<<idx))
+//@   loop 1 invariant forall(k, i, 729, c.l[k] == old(c.l[k]) && c.h[k] == old(c.h[k]))
+
+//@ func (c *Curl) out(dst trinary.Trits, idx uint)
+//@   props C06
+//@   repr uint
+//@   requires len(dst) >= 243
+//@   ensures  forall(i, 0, 243, int(dst[i]) == trit(c.l[i], c.h[i], idx&63))
+//@   modifies dst[0:243]
+//@   panics   never
+//@   loop 1 invariant 0 <= i && i <= 243 && len(dst) == 243 && idx < 64
+//@   loop 1 invariant forall(k, 0, i, int(dst[k]) == trit(c.l[k], c.h[k], idx))
+//@   loop 1 invariant forall(k, i, cap(old(dst)), old(dst)[k] == old(dst[k]))
+
+//@ func (c *Curl) transform()
+//@   props C06
+//@   repr uint
+//@   ensures  forall(i, 0, 729, c.l[i] == st(81, i, 0, old(c.l), old(c.h)) && c.h[i] == st(81, i, 1, old(c.l), old(c.h)))
+//@   ensures  c.direction == old(c.direction)
+//@   modifies c.l
+//@   modifies c.h
+//@   panics   never
